@@ -217,6 +217,9 @@ def F_check(ctx, lib):
             rm = lib.body(e["rm"])
             rret = flow.closure_ret(lib, rm)
             e2 = match(rret, C("restrict", P(2), C("collect", C("filter_map", C("enumerate", C("iter", F(ANY, "vars"))), CLOS("red", [OP(flow.sg(flt.path).split("::", 1)[-1], 2)])))))
+            if e2 is None:
+                # the reduction list as filter(..).map(..) (its table: S.F-reduct)
+                e2 = match(rret, C("restrict", P(2), C("collect", C("map", C("filter", C("enumerate", C("iter", F(ANY, "vars"))), CLOS("redf", [OP(flow.sg(flt.path).split("::", 1)[-1], 2)])), CLOS("redm")))))
             return e2 is not None
         zip_all_check(ctx, lib, rule, "bio.%s.filter" % name, flt, P(2), right, "Term::cmp_information")
 
